@@ -19,6 +19,7 @@ type c14Case struct {
 	prog  *gen.Program
 	src   string
 	texts [][]byte
+	prelude [][]byte
 }
 
 func c14Gen(seed uint64, i int, ntexts int) *c14Case {
@@ -40,7 +41,13 @@ func c14Gen(seed uint64, i int, ntexts int) *c14Case {
 	alpha := []byte("abc\n 1dA-.*+?|()[]{}^$")
 	sm := gen.NewSampler(rng, p, alpha)
 	texts := sm.Inputs(p.Commands[0].Body, ntexts, maxLenFor(p, 14))
-	return &c14Case{rg, re, p, src, texts}
+	cs := &c14Case{rg, re, p, src, texts, nil}
+	if rng.Chance(1, 3) {
+		// compiled first in the same process: sources that fail after opening regex groups, and ones that succeed
+		pool := []string{"find all @/(q)(?=r)/", "find all @/(q)/ at least", "find all @/(a)(b/", "find all @/(a)(b)(c)/ 'x", "find all @/(?<n>a)(b)\\3/", "find all @/(a)(b)(c)(d)/"}
+		cs.prelude = [][]byte{[]byte(pool[rng.Intn(len(pool))])}
+	}
+	return cs
 }
 
 // goScan emulates vore's scan with Go's regexp on the SAME regex source and also returns group texts.
@@ -86,7 +93,7 @@ func C14(r *drv.Run) {
 	if !quick(r) {
 		n, ntext = 150000, 16
 	}
-	r.Rule = "generated regexes of the stated subset (literals, ., bracket classes with ranges and negation, \\d \\D \\s \\S, plain/non-capturing/named groups, * + ? {m} {m,} {m,n} and lazy forms, alternations whose operands are single quantified atoms or groups, ^ $ at the ends, numbered and named back-references to closed groups, one case in eight with 9..12 groups and two-digit back-references; repeated bodies non-nullable), <= ~12 nodes; texts <= 14 ASCII bytes without \\r and \\f derived from the regex. Oracle 1: Go regexp given the SAME source, evaluated position by position (spans and group texts) when the regex has no back-reference. Oracle 2: reference backtracker on the harness's own translation (always; the only oracle for back-references). Non-trivial = >= 1 match expected AND VM backtracked; distinct by (regex, text)."
+	r.Rule = "generated regexes of the stated subset (literals, ., bracket classes with ranges and negation, \\d \\D \\s \\S, plain/non-capturing/named groups, * + ? {m} {m,} {m,n} and lazy forms, alternations whose operands are single quantified atoms or groups, ^ $ at the ends, numbered and named back-references to closed groups, one case in eight with 9..12 groups and two-digit back-references; repeated bodies non-nullable), <= ~12 nodes; texts <= 14 ASCII bytes without \\r and \\f derived from the regex; a third of the cases compiled right after another source in the same process (one that fails after opening regex groups, or one with several groups). Oracle 1: Go regexp given the SAME source, evaluated position by position (spans and group texts) when the regex has no back-reference. Oracle 2: reference backtracker on the harness's own translation (always; the only oracle for back-references). Non-trivial = >= 1 match expected AND VM backtracked; distinct by (regex, text)."
 	r.Assumptions = []string{
 		"Go regexp (leftmost-first) is the conventional backtracking engine on the back-reference-free subset; for back-references the harness reference matcher is",
 		"when a regex mixes named and numbered capturing groups only named back-references are generated (vore numbers only the unnamed groups, a conventional engine numbers all of them); group texts are compared by position of the opening parenthesis",
@@ -95,7 +102,10 @@ func C14(r *drv.Run) {
 	}
 	r.Exec(n, drv.ExecOpts{Batch: 250}, func(i int) *drv.Item {
 		cs := c14Gen(r.Seed, i, ntext)
-		c := wire.Case{Op: "run", Src: []byte(cs.src), Texts: cs.texts, StepBudget: 400000}
+		c := wire.Case{Op: "run", Src: []byte(cs.src), Texts: cs.texts, StepBudget: 400000, Prelude: cs.prelude}
+		if cs.prelude != nil {
+			r.Count("cases_after_another_compilation", 1)
+		}
 		return &drv.Item{Case: c, Check: func(res *wire.Result) { c14Check(r, cs, &c, res) }}
 	})
 	if r.NViolations() == 0 {
